@@ -105,11 +105,29 @@ EXTRA = {
     "C19": " Added later: per-step probabilities (list entry / list total; weight / sum of compatible weights; atom weight / sum over open atoms), the duplicate filter cannot merge states with different block masses, unique substructure matches, plain copies.",
     "C20": " Added later: cache key compares the caller's own arguments, rule patterns reach RDKit verbatim, no class-level lookup tables, stored fully_generated flag.",
 }
-for _p, _t in EXTRA.items():
-    if _p in CHECKS:
-        CHECKS[_p]["text"] += _t
+# rules added in the third build session (DESIGN.md §10)
+EXTRA3 = {
+    "C01": " Session 3: descriptors that bind an atom are constructed by the token scanner only (an inserted descriptor is parsed like a written one; R-DESCR-ORIGIN).",
+    "C02": " Session 3: R-DESCR-ORIGIN (BondDescriptor constructions outside the scanner designate no atom, or the kept branch-stack top inside a builder method of the token class; a token's lists are filled by its constructor).",
+    "C04": " Session 3: R-DESCR-ORIGIN shared from C02; R-INDEX-WRITERS decided with the effect analysis (a writer on a private deep copy is not a writer of the designated atom).",
+    "C05": " Session 3: R-DESCR-ORIGIN shared from C02; memoising decorators on MolGen accessors (R-MEMO).",
+    "C07": " Session 3: memoising decorators on MolGen / distribution accessors read by the loop (R-MEMO).",
+    "C09": " Session 3: nothing bound once per distribution class is re-configured through an instance (R-NO-SHARED-MUTABLE); discrete mass functions are finite at the lower end of their support for all positive shape parameters (R-LAW-FINITE, interval analysis; violated today by the Schulz-Zimm law for Mw > 2 Mn: known finding KF-3/C09).",
+    "C10": " Session 3: state that survives a call (memo attributes, module-level / class-level tables) is never changed below its slot nor filled from the random stream (R-NO-HISTORY-STATE over module-level roots, shallow-copy aliasing, may-alias returns and property getters); memoising decorators (R-MEMO); class-level objects never re-configured through an instance.",
+    "C11": " Session 3: R-NO-SHARED-MUTABLE for law objects; R-LAW-FINITE (violated today: known finding KF-3, Schulz-Zimm with Mw > 2 Mn draws 0 always); support bounds a / b on a law object are reported as information (mass outside not decided).",
+    "C12": " Session 3: a setter stores the caller's value itself (no re-scaling, one reaching definition); memoised factories of Mixture objects (R-MEMO).",
+    "C13": " Session 3: memoising decorators on the accessors the loop reads (R-MEMO).",
+    "C14": " Session 3: the declared share the pick reads is stored verbatim by the mixture setters (shared with C12).",
+    "C17": " Session 3: a descriptor's token-local atom index is written by the parser and the attachment shift only, or on a private deep copy (R-INDEX-WRITERS, effect-based, shared with C04).",
+    "C18": " Session 3: entry flags resolved through parameter defaults, **CONST tables and forwarding wrappers.",
+    "C19": " Session 3: the sum normalising a partner's weight runs over the pool the generator draws from (violated today: known finding KF-2, get_reaction_prob normalises over the partner's own token; probabilities sum to 4/3 with two end groups of one direction).",
+}
+for _src in (EXTRA, EXTRA3):
+    for _p, _t in _src.items():
+        if _p in CHECKS:
+            CHECKS[_p]["text"] += _t
 for _p in CHECKS:
-    CHECKS[_p]["note"] += "; A-NORM (sa/normalise.py): rules see every module after inlining of trivial helpers, propagation of condition temporaries and canonical spelling of updates / text building / all()-any() / append loops"
+    CHECKS[_p]["note"] += "; A-NORM (sa/normalise.py): rules see every module after inlining of trivial helpers, propagation of condition temporaries, inlining of short straight-line private helpers and canonical spelling of updates / text building / all()-any() / append loops"
 
 NOT_APPLICABLE = {}
 for _i in range(1, 21):
